@@ -59,6 +59,7 @@ pub proof fn lemma_gamma_lambda(n: u64, m: u64, lg: u32)
 //@SPEC     ensures r is Ok ==> r->Ok_0 == gamma_len(n) && final(backend).view() == old(backend).view() + gamma_bits(E::little(), n),
 //@PROLOGUE let ghost n0 = n;
 //@PROOF after=<<let lambda = n.ilog2();>> proof { lemma_gamma_lambda(n0, n, lambda); }
+//@PROOF[checks] after=<<n ^= 1 << lambda;>> proof { lemma_xor_top(E::little(), (n0 + 1) as u64, lambda as nat, n); }
 //@END
 
 pub proof fn lemma_gamma_split(s: Seq<bool>, p: int, le: bool, x: u64)
@@ -191,7 +192,8 @@ pub trait ExpGolombWrite<E: Endianness>: BitWrite<E> + GammaWrite<E> {
 //@SIG fn write_exp_golomb(&mut self, n: u64, k: usize) -> (r: Result<usize, Self::Error>)
 //@SPEC     requires k <= 63, n < u64::MAX,
 //@SPEC     ensures r is Ok ==> r->Ok_0 == eg_len(n, k as nat) && final(self).view() == old(self).view() + eg_bits(E::little(), n, k as nat),
-//@PROLOGUE proof { lemma_eg_quot(n, k as nat); }
+//@PROLOGUE let ghost n0 = n; proof { lemma_eg_quot(n, k as nat); }
+//@PROOF[checks] after=[[let n = n & (1_u128 << k).wrapping_sub(1) as u64;]] proof { lemma_masked_field(E::little(), n0, k as nat, n); }
 //@END
 }
 
